@@ -240,9 +240,9 @@ cLUMemInit(fact_t fact, void *work, int_t lwork, int m, int n, int_t annz,
 	} else {
 	    xsup   = (int *)cuser_malloc((n+1) * iword, HEAD, Glu);
 	    supno  = (int *)cuser_malloc((n+1) * iword, HEAD, Glu);
-	    xlsub  = cuser_malloc((n+1) * iword, HEAD, Glu);
-	    xlusup = cuser_malloc((n+1) * iword, HEAD, Glu);
-	    xusub  = cuser_malloc((n+1) * iword, HEAD, Glu);
+	    xlsub  = cuser_malloc((n+1) * sizeof(int_t), HEAD, Glu);
+	    xlusup = cuser_malloc((n+1) * sizeof(int_t), HEAD, Glu);
+	    xusub  = cuser_malloc((n+1) * sizeof(int_t), HEAD, Glu);
 	}
 
 	if ( Glu->MemModel == USER ) {
